@@ -192,6 +192,7 @@ func checkC12(p *Program, r *Report) {
 	c12Contract(p, r, m, fns, mutator)
 	c12Order(p, r, m, fns)
 	c12Copy(p, r, m, fns)
+	c12Setters(p, r, m, fns)
 	c12NoPanic(p, r, m, fns)
 }
 
@@ -1316,6 +1317,55 @@ func (m *envModel) underOwnHit(b *ssa.BasicBlock, recv ssa.Value) bool {
 
 // c12Extra: R8 the interface-valued wrappers (Define/Set ...) end in one and the same reflect-valued operation on every path;
 // R9 a module path is resolved in the selected module's own table after its first component.
+// c12Setters (R10): a method of the scope type whose whole effect is to store its parameter into a field of the receiver (the
+// external-lookup setter) does so on every path: a guard in front of the store makes some argument - nil, to remove what was set
+// - silently ineffective.
+func c12Setters(p *Program, r *Report, m *envModel, fns []*ssa.Function) {
+	n := 0
+	for _, fn := range fns {
+		if len(fn.Params) != 2 || !m.isEnvPtr(fn.Params[0].Type()) || fn.Signature.Results().Len() != 0 {
+			continue
+		}
+		var stores []*ssa.Store
+		other := false
+		for _, b := range fn.Blocks {
+			for _, in := range b.Instrs {
+				switch x := in.(type) {
+				case *ssa.Store:
+					if fa, ok := x.Addr.(*ssa.FieldAddr); ok && fa.X == ssa.Value(fn.Params[0]) && x.Val == ssa.Value(fn.Params[1]) {
+						stores = append(stores, x)
+					} else {
+						other = true
+					}
+				case *ssa.MapUpdate:
+					other = true
+				}
+			}
+		}
+		if len(stores) == 0 || other {
+			continue
+		}
+		n++
+		bad := ""
+		for _, b := range fn.Blocks {
+			if ret, ok := b.Instrs[len(b.Instrs)-1].(*ssa.Return); ok {
+				dom := false
+				for _, st := range stores {
+					if instrDominates(st, ret) {
+						dom = true
+					}
+				}
+				if !dom {
+					bad = "the return at " + p.Pos(instrPos(ret)) + " is reached without the store"
+				}
+			}
+		}
+		r.Check(bad == "", "C12.R10", funcName(fn)+"|stores its argument on every path", p.Pos(fn.Pos()), "the store dominates every return",
+			bad+": for some argument (nil, meant to remove what was set) the setter does nothing, and the old value keeps answering lookups and is carried into every later copy")
+	}
+	r.Floor("C12.R10", n, 1)
+}
+
 func c12Extra(p *Program, r *Report) {
 	m, err := buildEnvModel(p)
 	if err != nil {
